@@ -156,6 +156,30 @@ def run_convtype(prog, ctx=None):
                                 cur = FT["name"]
                                 names.append(cur)
                             ok = any(nm in want for nm in names)
+                            if not ok:
+                                # interface inheritance through the vtable struct: R._vptr -> V, V starts with W's vtable struct
+                                def vchain(nm):
+                                    r = prog.records.get(nm)
+                                    out = []
+                                    if not r or not r["fields"] or r["fields"][0]["off"] != 0:
+                                        return out
+                                    FT = r["unit"].types[r["fields"][0]["t"]]
+                                    if FT.get("k") != "ptr":
+                                        return out
+                                    VT = r["unit"].types[FT["to"]]
+                                    cur = VT.get("name") if VT.get("k") == "record" else None
+                                    for _ in range(6):
+                                        if cur is None:
+                                            break
+                                        out.append(cur)
+                                        rr = prog.records.get(cur)
+                                        if not rr or not rr["fields"]:
+                                            break
+                                        F0 = rr["unit"].types[rr["fields"][0]["t"]]
+                                        cur = F0.get("name") if F0.get("k") == "record" else None
+                                    return out
+                                mine = vchain(PT["name"])
+                                ok = any((vchain(w)[:1] and vchain(w)[0] in mine) for w in want)
                             res.ob("%s:type %s:%s" % (f.qn, hex(K), norm(show(n, f))), ok, f, n.get("l", 0),
                                    "" if ok else "request for type %s is answered with a pointer to %s; callers store the result in %s" % (
                                        hex(K), PT["name"], ", ".join("%s* (%d sites)" % (k, len(v2)) for k, v2 in want.items())))
